@@ -14,7 +14,7 @@ import VerifModel.Model.CalendarLite
             dates  : step not a whole number → error message, exit 1;
                      step > 0: `d = min(start, end'); while d <= max(start, end'): d = get_date(d, step)`
                      step < 0: `d = start; while d >= end': d = get_date(d, step)`
-                     (a ValueError of `get_date` → error message, exit 1)
+                     (a ValueError or OverflowError of `get_date` → error message, exit 1)
         - more than three fields                         → error message, exit 1
     * dates: every value is truncated with `int()`.
 
@@ -109,7 +109,11 @@ def firstDayGE (n : Nat) : Nat :=
     * the date the loop starts from is not a calendar date (`get_date` → `datetime(y, m, d)` raises
       ValueError, which the loop turns into the message)        → error message, exit 1
     * `get_date` is called once more after the last value that is kept; leaving 0001-01-01 … 9999-12-31
-      there is an unhandled OverflowError. -/
+      there (datetime raises OverflowError, which the loop turns into the message since repo commit
+      "a date range that steps outside the years 1 to 9999"; before, it was an unhandled exception)
+                                                                → error message, exit 1
+    * a first date whose year does not even fit a C int makes `datetime(y, m, d)` raise OverflowError
+      instead of ValueError: the same message, covered by `!d0.valid`. -/
 def rangeDates (a s b : Rat) : Res (List Rat) :=
   let stop := b + stepSign s * fudge
   if (s.floor : Rat) ≠ s then .error .exit
@@ -124,7 +128,7 @@ def rangeDates (a s b : Rat) : Res (List Rat) :=
       else
         let n0 := days d0
         let cnt := (lastDayLE hi.floor.toNat - 1 - n0) / k + 1
-        if n0 + cnt * k > maxDay then .error (.raise "OverflowError")
+        if n0 + cnt * k > maxDay then .error .exit
         else .ok ((lo.floor : Rat) ::
           (List.range (cnt - 1)).map fun i => (((civil (n0 + (i + 1) * k)).ymd : Nat) : Rat))
   else
@@ -137,7 +141,7 @@ def rangeDates (a s b : Rat) : Res (List Rat) :=
         let k := (-s).floor.toNat
         let n0 := days d0
         let extra := (n0 - firstDayGE stop.ceil.toNat) / k
-        if n0 < minDay + (extra + 1) * k then .error (.raise "OverflowError")
+        if n0 < minDay + (extra + 1) * k then .error .exit
         else .ok ((a.floor : Rat) ::
           (List.range extra).map fun i => (((civil (n0 - (i + 1) * k)).ymd : Nat) : Rat))
 
